@@ -166,6 +166,11 @@ func specMentions(fs *FuncSpec, prop string) bool {
 			}
 		}
 	}
+	for _, ch := range fs.CallHints {
+		if hasProp(ch.C.Props, prop) {
+			return true
+		}
+	}
 	for _, l := range fs.Loops {
 		for _, cs := range [][]*Clause{l.Invariants, l.Hints} {
 			for _, c := range cs {
